@@ -39,7 +39,13 @@ RULE = ("same harness as C06 (bin c06, driver drv_c06), seeds shifted so the two
         "cluster: all legs or none except constant single-site ops; loop: every changed op keeps a positive element; RVB: re-bonded ops are "
         "positive-weight two-site diagonal terms) and, for spin-only calls, that bonds and positions are unchanged. The Rust oracle evaluates "
         "the sampler's own matrix elements (QmcIsingGraph::hamiltonian / Interaction::at). Mode rvb-zero-word scripts the word 0 (and 2^11) at "
-        "every draw position of RVB updates that re-bond (regression for F12). Non-trivial = at least one operator before or after.")
+        "every draw position of RVB updates that re-bond (regression for F12). "
+        "Generic kinds also cover: symmetry-breaking single-variable field terms registered first/middle/last; interactions with constant diagonal "
+        "but non-constant matrix (constant flag recomputed from the matrix); constant two-/three-variable interactions; three-variable full matrices "
+        "under loop updates; full two-/three-variable matrices symmetric except for one (idx, ~idx) pair placed in every quarter of the index range, "
+        "with the gate oracle that no plain cluster update runs while a term is asymmetric (all 4^n entries compared). Serial tempering ladders mix a "
+        "zero-field replica with field replicas of one sign (>= 30 rounds of [steps; tempering_step], every replica judged with its own Hamiltonian). "
+        "Non-trivial = at least one operator before or after.")
 
 
 def main(ck):
